@@ -105,5 +105,5 @@ Ltac split_one :=
   end.
 
 Ltac cleaf := first [reflexivity | (exfalso; expose_ranges; lia) | (expose_ranges; f_equal; lia)].
-Ltac cfinish := repeat (split_one; zblack; bool_simpl; drop_wraps); cleaf.
+Ltac cfinish := repeat (split_one; zblack; eval_closed; bool_simpl; drop_wraps); cleaf.
 
